@@ -16,12 +16,12 @@ PROPERTY = "C18"
 FILES = ["solvor/job_shop.py", "solvor/vrp.py", "solvor/lns.py"]
 FUNCTIONS = ["solvor.job_shop.solve_job_shop / _dispatch / _try_swap / _rebuild_schedule / _compute_makespan",
              "solvor.vrp.{random,worst,related,route,sync}_removal", "solvor.vrp.{greedy,regret,sync_aware}_insertion", "solvor.vrp._insertion_cost",
-             "solvor.vrp.VRPState.{copy,compute_arrival_times,update_arrival_times,*_violation}", "solvor.vrp.vrp_objective"]
+             "solvor.vrp.VRPState.{copy,compute_arrival_times,update_arrival_times,*_violation}", "solvor.vrp.vrp_objective", "solvor.vrp.solve_vrptw (with solvor.lns.alns underneath)"]
 BOUNDS = {
     "quick": "job shop: shapes 2x2, 3x2, 2x3 (jobs x ops) with 8 machine assignments each (repeated machines inside a job included), rules "
              "fifo/spt/lpt/mwkr/random, local search off and on (max_iter<=2); durations unbounded Ints >= 0. VRPTW operators: 3 customers (one "
              "needing 2 vehicles) + depot, 2 vehicles, EVERY bookkeeping-valid pre-state (route membership and order), each of the 8 exported "
-             "operators once; distances (symmetric, non-negative), demands, capacities, windows, service times symbolic; vrp_objective on the same states and on states of 2 customers / 3 vehicles with a customer that requires three vehicles",
+             "operators once; distances (symmetric, non-negative), demands, capacities, windows, service times symbolic; vrp_objective on the same states and on states of 2 customers / 3 vehicles with a customer that requires three vehicles; solve_vrptw end to end on 3 instances (tuples of every accepted length / Customer objects, int / list fleets, symbolic demands, windows, service times, capacities and penalty weights, concrete coordinates), 1 and 3 ALNS iterations, path-capped",
     "thorough": "job shop 3x3 and max_iter 3; VRPTW with 4 customers (two multi-vehicle) and 3 vehicles (VERIF_SEED-sampled pre-states)",
 }
 OUTSIDE = "more customers/vehicles/jobs than the bound; full solve_vrptw runs (covered only through its operators and objective); float rounding"
@@ -32,8 +32,9 @@ ASSUMPTIONS = [
     "not part of INV, so pre-states also carry an arbitrary (stale) sync_assignments entry for the multi-vehicle customer",
     "Random replaced by a symbolic stream; float() shadowed in solvor.job_shop",
 ]
-STUBS = ["solvor.job_shop.Random := SymRandom", "solvor.job_shop.float := symbolic float", "operators receive a SymRandom instance as rng"]
-GOALS = {"quick": ["js.local_search", "js.random_rule", "vrp.route_removal", "vrp.sync_aware_insertion", "vrp.greedy_insertion", "vrp.multi_on_two_routes",
+STUBS = ["solvor.job_shop.Random := SymRandom", "solvor.job_shop.float := symbolic float", "operators receive a SymRandom instance as rng",
+         "solve_vrptw: solvor.vrp.Random and solvor.lns.Random := one SymRandom stream, solvor.lns.exp := symbolic exp (order facts only)"]
+GOALS = {"quick": ["vrptw.top", "js.local_search", "js.random_rule", "vrp.route_removal", "vrp.sync_aware_insertion", "vrp.greedy_insertion", "vrp.multi_on_two_routes",
                    "vrp.objective"],
          "thorough": ["js.local_search", "vrp.route_removal", "vrp.sync_aware_insertion"]}
 OPTS = {"quick": {"path_wall": 30.0, "qto": 10000}, "thorough": {"path_wall": 60.0, "qto": 20000}}
@@ -112,7 +113,21 @@ def make_state(s, n_cust, n_veh, multi, routes, unassigned, triangle=False, sync
     return st
 
 
-def inv(s, st, n_cust, multi, tag):
+def ref_arrivals(st, v, D=None):
+    """Arrival times of route v written from the documentation (travel from the depot, wait for the window to open, serve, travel on),
+    independent of VRPState.compute_arrival_times."""
+    r = st.routes[v]
+    D = st._dist if D is None else D
+    out = []
+    t = None
+    for i, c in enumerate(r):
+        t = D[0][c] if i == 0 else t + st.customers[r[i - 1]].service_time + D[r[i - 1]][c]
+        t = smax(t, st.customers[c].tw_start)
+        out.append(t)
+    return out
+
+
+def inv(s, st, n_cust, multi, tag, D=None):
     custs = list(range(1, n_cust + 1))
     on = {c: [v for v, r in enumerate(st.routes) if c in r] for c in custs}
     bad = []
@@ -134,7 +149,7 @@ def inv(s, st, n_cust, multi, tag):
     if ok_len and not bad:
         conds = []
         for v in range(len(st.routes)):
-            want = st.compute_arrival_times(v)
+            want = ref_arrivals(st, v, D)
             conds += [a == w for a, w in zip(st.arrival_times[v], want)]
         s.check(AND(conds) if conds else True, tag + ".arrival_times_consistent_with_travel_waiting_service")
     return not bad
@@ -173,7 +188,19 @@ def h_vrp_objective(s, n_cust, n_veh, multi, routes, unassigned):
     w = {k: s.real("w_" + k, 0, None) for k in ("distance", "vehicle", "tw", "capacity", "sync", "unassigned")}
     got = vrp.vrp_objective(st, distance_weight=w["distance"], vehicle_weight=w["vehicle"], tw_penalty=w["tw"], capacity_penalty=w["capacity"],
                             sync_penalty=w["sync"], unassigned_penalty=w["unassigned"])
-    D = st._dist
+    s.check(AND([a == b for v in range(len(st.routes)) for a, b in zip(st.arrival_times[v], ref_arrivals(st, v))] or [True]),
+            "vrp.update_arrival_times_matches_documented_recurrence")
+    want = documented_objective(st, multi, w)
+    s.check(got == want, "vrp.objective_is_documented_weighted_sum")
+    s.goal("vrp.objective")
+    s.observe("obj", got)
+
+
+def documented_objective(st, multi, w, with_arrivals=None, D=None):
+    """distance_weight * total distance + vehicle_weight * #used vehicles + tw_penalty * lateness + capacity_penalty * overload +
+    sync_penalty * (missing vehicles * 1000 + spread of arrivals) + unassigned_penalty * #unassigned, written from the documentation."""
+    D = st._dist if D is None else D
+    arr = with_arrivals if with_arrivals is not None else st.arrival_times
     dist = 0
     for r in st.routes:
         if r:
@@ -182,7 +209,9 @@ def h_vrp_objective(s, n_cust, n_veh, multi, routes, unassigned):
     tw = 0
     for v, r in enumerate(st.routes):
         for i, c in enumerate(r):
-            late = st.arrival_times[v][i] - st.customers[c].tw_end
+            if not isinstance(st.customers[c].tw_end, SNum) and st.customers[c].tw_end == float("inf"):
+                continue
+            late = arr[v][i] - st.customers[c].tw_end
             tw = tw + ITE(late > 0, late, 0)
     cap = 0
     for v, r in enumerate(st.routes):
@@ -192,7 +221,7 @@ def h_vrp_objective(s, n_cust, n_veh, multi, routes, unassigned):
     for c, k in multi.items():
         if k <= 1:
             continue
-        times = [st.arrival_times[v][r.index(c)] for v, r in enumerate(st.routes) if c in r]
+        times = [arr[v][r.index(c)] for v, r in enumerate(st.routes) if c in r]
         if len(times) < k:
             sync = sync + (k - len(times)) * 1000.0
         elif len(times) > 1:
@@ -201,10 +230,102 @@ def h_vrp_objective(s, n_cust, n_veh, multi, routes, unassigned):
                 hi = ITE(t > hi, t, hi)
                 lo = ITE(t < lo, t, lo)
             sync = sync + (hi - lo)
-    want = w["distance"] * dist + w["vehicle"] * used + w["tw"] * tw + w["capacity"] * cap + w["sync"] * sync + w["unassigned"] * len(st.unassigned)
-    s.check(got == want, "vrp.objective_is_documented_weighted_sum")
-    s.goal("vrp.objective")
-    s.observe("obj", got)
+    return (w["distance"] * dist + w["vehicle"] * used + w["tw"] * tw + w["capacity"] * cap + w["sync"] * sync +
+            w["unassigned"] * len(st.unassigned))
+
+
+VRPTW_CASES = {
+    # customers as tuples of every accepted length (id, x, y[, demand[, tw_start[, tw_end[, service[, required_vehicles]]]]]) or Customer objects;
+    # "S:name" marks a symbolic non-negative Real; coordinates stay concrete (hypot)
+    "tuples": {"customers": [(1, 3.0, 0.0), (2, 0.0, 4.0, "S:demand2", "S:tws2", "S:twe2", "S:svc2", 2), (3, 3.0, 4.0, "S:demand3", 1.0, "S:twe3")],
+               "vehicles": 2, "capacity": "S:capacity"},
+    "objects": {"customers": [("C", 1, 1.0, 1.0, "S:demand1", 0.0, "S:twe1", "S:svc1", 1), ("C", 2, 2.0, 0.0, 1.0, "S:tws2", 9.0, 0.5, 2)],
+                "vehicles": ["S:cap0", "S:cap1", "S:cap2"], "capacity": None},
+    "concrete": {"customers": [(1, 3.0, 0.0, 2.0, 0.0, 4.0, 1.0), (2, 0.0, 4.0, 3.0, 2.0, 9.0, 0.5, 2), (3, 3.0, 4.0, 4.0, 1.0, 6.0), (4, 1.0, 1.0, 1.0)],
+                 "vehicles": 2, "capacity": 6.0},
+}
+
+
+def h_vrptw(s, case, max_iter, weights_symbolic=True):
+    """The public entry point itself: input normalisation (tuples of every length, int or list fleets), which operators it hands to alns, the
+    penalty weights it forwards, and what it finally reports. Random streams (solve_vrptw's and alns's) are symbolic draws."""
+    vrp = importlib.import_module("solvor.vrp")
+    lns = importlib.import_module("solvor.lns")
+    from checks.c19 import ExpStub
+    spec = VRPTW_CASES[case]
+    syms = {}
+
+    def val(x):
+        if isinstance(x, str) and x.startswith("S:"):
+            if x not in syms:
+                syms[x] = s.real(x[2:], 0, None)
+            return syms[x]
+        return x
+
+    customers, expect = [], {}
+    for c in spec["customers"]:
+        if c[0] == "C":
+            f = [val(x) for x in c[1:]]
+            customers.append(vrp.Customer(*f))
+        else:
+            f = [val(x) for x in c]
+            customers.append(tuple(f))
+        full = f + [0.0, 0.0, float("inf"), 0.0, 1][len(f) - 3:]
+        expect[f[0]] = full
+    for c in expect.values():  # documented input: a window opens no later than it closes
+        if (isinstance(c[4], SNum) or isinstance(c[5], SNum)) and c[5] != float("inf"):
+            s.assume(c[4] <= c[5])
+    import math
+    pts = [(0.0, 0.0)] + [(expect[i][1], expect[i][2]) for i in range(1, len(expect) + 1)]
+    Dref = [[math.hypot(a[0] - b[0], a[1] - b[1]) for b in pts] for a in pts]
+    if isinstance(spec["vehicles"], int):
+        vehicles, caps = spec["vehicles"], [val(spec["capacity"])] * spec["vehicles"]
+        kw = {"vehicle_capacity": caps[0]}
+    else:
+        caps = [val(x) for x in spec["vehicles"]]
+        vehicles, kw = [vrp.Vehicle(i, cp) for i, cp in enumerate(caps)], {}
+    names = ("distance", "vehicle", "tw", "capacity", "sync")
+    if weights_symbolic:
+        w = {k: s.real("w_" + k, 0, None) for k in names}
+    else:
+        w = {"distance": 1.0, "vehicle": 0.0, "tw": 1000.0, "capacity": 1000.0, "sync": 10000.0}
+    w["unassigned"] = 100000.0  # vrp_objective's documented default; solve_vrptw has no knob for it
+    sr = SymRandom(s)
+    s.patch(vrp, Random=sr)
+    s.patch(lns, Random=sr, exp=ExpStub(s))
+    if weights_symbolic:
+        res = vrp.solve_vrptw(customers, vehicles, depot=(0.0, 0.0), distance_weight=w["distance"], vehicle_weight=w["vehicle"], tw_penalty=w["tw"],
+                              capacity_penalty=w["capacity"], sync_penalty=w["sync"], max_iter=max_iter, max_no_improve=3, seed=1, **kw)
+    else:
+        res = vrp.solve_vrptw(customers, vehicles, depot=(0.0, 0.0), max_iter=max_iter, max_no_improve=3, seed=1, **kw)
+    st = res.solution
+    ok = isinstance(st, vrp.VRPState) and len(st.routes) == len(caps) and len(st.customers) == len(expect) + 1
+    s.check(ok, "vrptw.returns_a_state_for_the_given_fleet_and_customers", detail=repr(st)[:200])
+    if not ok:
+        return
+    # input normalisation: every field lands where the documentation says, defaults for the omitted ones
+    bad = []
+    for cid, f in expect.items():
+        c = st.customers[cid]
+        got = [c.id, c.x, c.y, c.demand, c.tw_start, c.tw_end, c.service_time, c.required_vehicles]
+        for name, g, e in zip(("id", "x", "y", "demand", "tw_start", "tw_end", "service_time", "required_vehicles"), got, f):
+            same = (g is e) if (isinstance(g, SNum) or isinstance(e, SNum)) else (g == e)
+            if not same:
+                bad.append((cid, name))
+    s.check(not bad, "vrptw.customer_fields_as_documented", detail=repr(bad))
+    s.check(AND([v.capacity is cp if isinstance(cp, SNum) else v.capacity == cp for v, cp in zip(st.vehicles, caps)]), "vrptw.vehicle_capacities_as_given")
+    multi = {cid: f[7] for cid, f in expect.items()}
+    if inv(s, st, len(expect), multi, "vrptw", D=Dref):
+        arr = [ref_arrivals(st, v, Dref) for v in range(len(st.routes))]
+        want = documented_objective(st, multi, w, with_arrivals=arr, D=Dref)
+        tol = 1e-9 * want + 1e-9  # coordinates are concrete floats: the two sums round differently (all terms are non-negative)
+        s.check(AND(res.objective - want <= tol, want - res.objective <= tol), "vrptw.objective_is_documented_weighted_sum_of_returned_state")
+    s.goal("vrptw.top")
+    if any(len([1 for r in st.routes if c in r]) >= 2 for c, k in multi.items() if k > 1):
+        s.goal("vrptw.multi_served")
+    s.observe("routes", [list(r) for r in st.routes])
+    s.observe("unassigned", sorted(st.unassigned))
+    s.observe("objective", res.objective)
 
 
 def h_vrp_base(s, n_cust, n_veh):
@@ -221,7 +342,8 @@ OPS = ["random_removal", "worst_removal", "related_removal", "route_removal", "s
 HEAVY = {"regret_insertion", "greedy_insertion", "sync_aware_insertion", "worst_removal"}
 
 JS_SHAPES = {
-    "2x2": [[[0, 1], [1, 0]], [[0, 0], [0, 1]], [[0, 1], [0, 1]], [[1, 1], [1, 0]], [[0, 2], [2, 0]], [[0, 1], [2, 1]], [[0, 0], [0, 0]], [[1, 0], [1, 0]]],
+    "2x2": [[[0, 1], [1, 0]], [[0, 0], [0, 1]], [[0, 1], [0, 1]], [[1, 1], [1, 0]], [[0, 2], [2, 0]], [[0, 1], [2, 1]], [[0, 0], [0, 0]], [[1, 0], [1, 0]],
+            [[0, 3], [3, 0]], [[4, 1], [1, 4]]],  # machine indices with gaps ("any machine indices")
     "3x2": [[[0, 1], [1, 0], [0, 1]], [[0, 1], [1, 2], [2, 0]], [[0, 0], [1, 1], [0, 1]], [[0, 1], [0, 1], [0, 1]], [[2, 0], [0, 2], [1, 0]],
             [[0, 1], [1, 0], [1, 1]], [[0, 2], [0, 2], [2, 0]], [[1, 0], [0, 0], [0, 1]]],
     "2x3": [[[0, 1, 2], [2, 1, 0]], [[0, 1, 0], [1, 0, 1]], [[0, 0, 1], [1, 1, 0]], [[0, 1, 2], [0, 1, 2]], [[0, 1, 1], [1, 0, 0]],
@@ -269,6 +391,12 @@ def items(tier, rng):
     for routes, un in (full + rng.sample([t for t in tri if t not in full], 3) if q else tri):
         out.append({"name": "vrp_objective3", "harness": "h_vrp_objective",
                     "params": {"n_cust": 2, "n_veh": 3, "multi": {"1": 3}, "routes": routes, "unassigned": sorted(un)}})
+    # the public entry point end to end (input normalisation, operator set, forwarded weights, reported objective)
+    for case in VRPTW_CASES:
+        for mi in (1, 3):
+            for wsym in (True, False):
+                out.append({"name": "vrptw_%s_%d" % (case, mi), "harness": "h_vrptw", "max_paths": 150 if q else 1500, "spread": rng.randrange(1 << 30),
+                            "params": {"case": case, "max_iter": mi, "weights_symbolic": wsym}})
     if not q:
         for routes, un in rng.sample(tri, 12):
             for op in OPS:
